@@ -390,10 +390,16 @@ Section Compile.
     let s1 := replace_all (B "{{") (B "--{{--") s in
     let s2 := replace_all (B "}}") (B "--}}--") s1 in
     let s3 := replace_all (B "--{{--") (B "{{""{{""}}") s2 in
-    replace_all (B "--}}--") (B "{{""}}""}}") s3.
+    let s4 := replace_all (B "--}}--") (B "{{""}}""}}") s3 in
+    (* a trailing brace would form a delimiter with what follows *)
+    match rev s4 with
+    | c :: r => if Ascii.eqb c "{" then rev r ++ B "{{""{""}}" else s4
+    | [] => s4
+    end.
 
   Definition lit_open : tok := TAct (B "{{""{{""}}") false false (AcPipe ([], [[AStr (B "{{")]])).
   Definition lit_close : tok := TAct (B "{{""}}""}}") false false (AcPipe ([], [[AStr (B "}}")]])).
+  Definition lit_brace : tok := TAct (B "{{""{""}}") false false (AcPipe ([], [[AStr (B "{")]])).
 
   (* token view of quote_text's output: literal pieces and the two string actions *)
   Fixpoint text_toks_fuel (fuel : nat) (s acc : bytes) : list tok :=
@@ -406,6 +412,7 @@ Section Compile.
       | c :: r =>
         if prefixb (B "{{""{{""}}") s then flush ++ lit_open :: text_toks_fuel f (skipn 8 s) []
         else if prefixb (B "{{""}}""}}") s then flush ++ lit_close :: text_toks_fuel f (skipn 8 s) []
+        else if prefixb (B "{{""{""}}") s then flush ++ lit_brace :: text_toks_fuel f (skipn 7 s) []
         else text_toks_fuel f r (c :: acc)
       end
     end.
